@@ -17,6 +17,7 @@ import (
 	"github.com/TheCacophonyProject/lepton3"
 	"github.com/TheCacophonyProject/thermal-recorder/motion"
 	"github.com/TheCacophonyProject/thermal-recorder/recorder"
+	"github.com/TheCacophonyProject/thermal-recorder/throttle"
 	"github.com/TheCacophonyProject/window"
 
 	"github.com/TheCacophonyProject/thermal-recorder/zzverif/vh"
@@ -60,6 +61,11 @@ type Cfg struct {
 	Shadow  bool  `json:"shadow"`
 	ResX    int   `json:"resx"`
 	ResY    int   `json:"resy"`
+	// Thr: the motion sink sits behind the real ThrottledRecorder with a budget nothing can exhaust (as handleConn
+	// wires it when throttling is active): everything the processor does must look the same at the storage layer
+	Thr bool `json:"thr"`
+	// NoLimit: the processor's log limiter is replaced by one that suppresses nothing (attempted messages)
+	NoLimit bool `json:"nolimit"`
 }
 
 type Script struct {
@@ -164,7 +170,16 @@ func newRig(cfg Cfg, cam vh.Cam, constOn bool) *rig {
 	} else {
 		r.c = &sink{} // unused
 	}
-	r.mp = motion.NewMotionProcessor(lepton3.ParseRawFrame, mc, rc, &config.Location{}, r.l, r.m, cam, crr, r.s)
+	var mrec recorder.Recorder = r.m
+	if cfg.Thr {
+		minLen := cfg.Min + cfg.Preview
+		if minLen < 1 {
+			minLen = 1 // min-secs + preview-secs = 0 cannot be constructed at all (known finding F-C06-1)
+		}
+		tc := &config.ThermalThrottler{Activate: true, BucketSize: 1000000 * time.Second, MinRefill: time.Second}
+		mrec = throttle.NewThrottledRecorder(r.m, tc, minLen, nil, cam)
+	}
+	r.mp = motion.NewMotionProcessor(lepton3.ParseRawFrame, mc, rc, &config.Location{}, r.l, mrec, cam, crr, r.s)
 	return r
 }
 
@@ -205,6 +220,9 @@ func runScript(out *vh.Out, sc Script, idx int) {
 		"N": cfg.Preview*cfg.Fps + cfg.Trig, "TrigF": cfg.Trig, "MinF": cfg.Min * cfg.Fps, "MaxF": cfg.Max * cfg.Fps,
 		"ConstOn": cfg.Const, "SnapLen": 20, "fps": cfg.Fps, "winS": winS, "winE": winE})
 	main := newRig(cfg, cam, cfg.Const)
+	if cfg.NoLimit {
+		setNoLimit(main.mp)
+	}
 	var shadow *rig
 	if cfg.Shadow {
 		shadow = newRig(cfg, cam, false)
